@@ -445,7 +445,10 @@ def ob_connection_identity(report, prop):
             idx = [e for e in r.events if e.kind == 'chain-index']
             if len(ext) != 1 or 'extracted.discr == 0' not in ' '.join(str(z3.simplify(x)) for x in r.pc):
                 return viol(prop, ob, [ex], 'a Connection is created without successfully extracting the peer identity from its certificate', 'conn-extract', path_summary(r), len(res))
-            if len(idx) != 1 or idx[0].name != 'Vec::index' or MD.conc(idx[0].args[1]) != 0:
+            native0 = not idx and re.search(r'\[0\]$|\[#0\]$', vname(ext[0].args[0])) is not None      # `&chain[0]` on a slice: a MIR projection, no call
+            if os.environ.get('VERIF_DEBUG'):
+                print('DEBUG ext arg', vrepr(ext[0].args[0]), vname(ext[0].args[0]))
+            if not native0 and (len(idx) != 1 or idx[0].name != 'Vec::index' or MD.conc(idx[0].args[1]) != 0):
                 return viol(prop, ob, [ex], f'the identity is not taken from element 0 of the peer\'s certificate chain - the end-entity certificate the handshake signature was verified against '
                             f'({idx[0].name if idx else "no index"} {vrepr(idx[0].args[1]) if idx else ""})', 'conn-chain-element', path_summary(r), len(res))
             if '[0]' not in vname(ext[0].args[0]):
@@ -480,6 +483,9 @@ def ob_server_config_sni(report, prop):
             k(p, Sym(f'add_result{p.seq("add")}', 'Result<(), rustls::Error>'))
         ex = e2.executor('anemo', [(r'IntoIter as Iterator>::next$', m_next), (r'CertifiedKey::new$', m_certified), (r'ResolvesServerCertUsingSni::add$', m_add)], max_depth=1, unroll=4)
         fns = [f for f in find_fns(ex.prog, r'^config::<impl>::server_config$') if len(f.args) >= 3]
+        if not fns:
+            # moved out of the builder: the only crate function of that name returning a quinn server configuration
+            fns = [f for f in find_fns(ex.prog, r'(^|::)server_config$') if 'ServerConfig' in (f.ret or '') and '{closure' not in f.raw]
         if len(fns) != 1:
             return ob.done([ex], 'inconclusive', 'EndpointConfigBuilder::server_config not found', paths=0)
         res = ex.run(fns[0], [])
@@ -525,8 +531,27 @@ def ob_build_names(report, prop):
 
         def m_clone(ex, p, call, k):
             k(p, ex.deref(p, call.args[0]))
-        ex = e2.executor('anemo', [(r'EndpointConfigBuilder::generate_cert$', m_gen), (r'EndpointConfigBuilder::client_config$', m_client_cfg),
-                                   (r'EndpointConfigBuilder::server_config$', m_server_cfg),
+        def m_by_result(ex_, p, call, k):
+            # whatever crate function builds the quinn client / server configuration (the pinned EndpointConfigBuilder::{client,server}_config
+            # or the same helper moved / renamed): recognised by what it returns
+            f = ex_.resolve(call.callee) if isinstance(call.callee, str) else None
+            if f is None or not f.blocks or '{closure' in f.raw or re.search(r'(^|::)build$', call.short):
+                return NotImplemented
+            t = (f.ret or '') + ' ' + (call.retty or '')
+            if re.match(r'\s*\((\w+::)*CertificateDer<[^>]*>,\s*(\w+::)*PrivateKeyDer', f.ret or ''):
+                names = [i for i, a in enumerate(f.args) if re.search(r'^&(\'\w+ )?(str|String|std::string::String)$', (f.decl.get(a, '') or '').strip())]
+                if len(names) != 1:
+                    return NotImplemented
+                nm = ex_.deref(p, call.args[names[0]])
+                p.events.append(Event('gen-cert', 'generate_cert', (nm,)))
+                return k(p, Agg('()', None, (Sym(f'cert_for({vname(nm)})', 'CertificateDer'), Sym('key_der', 'PrivateKeyDer')), 'tuple'))
+            if re.search(r'Result<(quinn::)?(config::)?ClientConfig\b', t):
+                return m_client_cfg(ex_, p, call, k)
+            if re.search(r'Result<(quinn::)?(config::)?ServerConfig\b', t):
+                return m_server_cfg(ex_, p, call, k)
+            return NotImplemented
+        ex = e2.executor('anemo', [(r'(^|::)generate_cert$', m_gen), (r'(^|::)client_config$', m_client_cfg),
+                                   (r'(^|::)server_config$', m_server_cfg), (r'.', m_by_result),
                                    (r'Arc::new$', lambda ex_, p_, call, k: k(p_, call.args[0]))], max_depth=1, opaque=[r'construct_reset_key$'])
         fn = find_method(ex.prog, 'EndpointConfigBuilder', 'build')
         bf = struct_fields('crates/anemo/src/config.rs', 'EndpointConfigBuilder')
@@ -550,21 +575,41 @@ def ob_build_names(report, prop):
                 continue
             cc = [e for e in r.events if e.kind == 'client-config']
             sc = [e for e in r.events if e.kind == 'server-config']
+            if not any(e.kind == 'gen-cert' for e in r.events):
+                return ob.done([ex], 'inconclusive', 'build() succeeds without calling a certificate generator this obligation recognises (a function returning (CertificateDer, PrivateKeyDer) for a name)',
+                               paths=len(res))
             if len(cc) != 1 or len(sc) != 1:
                 return viol(prop, ob, [ex], 'build() does not create exactly one client and one server configuration', 'build-count', path_summary(r), len(res))
-            if base(vname(cc[0].args[0])) != 'cert_for(primary)':
-                return viol(prop, ob, [ex], f'the client presents {vrepr(cc[0].args[0])}, not the certificate issued for its primary network name', 'build-client-cert', path_summary(r), len(res))
-            cn = names_of(cc[0].args[2], r)
+            # arguments by what they are, not by position: the certificate verifier (accepted names) vs everything else (certificates, SNI pairs)
+            def is_verifier(v):
+                return derives_from(v, lambda x: (isinstance(x, Agg) and x.name == 'CertVerifier') or (isinstance(x, Sym) and re.search(r'\bCertVerifier\b', x.ty or '') is not None),
+                                    ex=ex, p=r.path)
+            cargs, sargs = e2.flatten_args(cc[0].args, ('CertVerifier',)), e2.flatten_args(sc[0].args, ('CertVerifier',))
+            cver, crest = [a for a in cargs if is_verifier(a)], [a for a in cargs if not is_verifier(a)]
+            sver, srest = [a for a in sargs if is_verifier(a)], [a for a in sargs if not is_verifier(a)]
+            if os.environ.get('VERIF_DEBUG'):
+                print('DEBUG cargs', [vrepr(a)[:150] for a in cargs]); print('DEBUG sargs', [vrepr(a)[:150] for a in sargs])
+            if len(cver) != 1 or len(sver) != 1:
+                return ob.done([ex], 'inconclusive', f'cannot tell the certificate verifier among the arguments of the configuration builders ({len(cver)}, {len(sver)})', paths=len(res))
+            ccerts = []
+            for a in crest:
+                derives_from(a, lambda v: ccerts.append(base(v.name)) or False if isinstance(v, Sym) and v.name.startswith('cert_for(') else False, ex=ex, p=r.path)
+            if sorted(set(ccerts)) != ['cert_for(primary)']:
+                return viol(prop, ob, [ex], f'the client presents {sorted(set(ccerts))}, not the certificate issued for its primary network name', 'build-client-cert', path_summary(r), len(res))
+            cn = names_of(cver[0], r)
             if sorted(set(cn)) != ['primary']:
                 return viol(prop, ob, [ex], f'the dialer\'s verifier accepts names {sorted(set(cn))}, not exactly its primary name', 'build-client-names', path_summary(r), len(res))
             has_alt = e2.solve(r.pc + [ad != 1], want_model=False)[0] == 'unsat'
             want = ['alt@Some.0', 'primary'] if has_alt else ['primary']
             seen.add('alt' if has_alt else 'no-alt')
-            sn = sorted(set(names_of(sc[0].args[2], r)))
+            sn = sorted(set(names_of(sver[0], r)))
             if sn != want:
                 return viol(prop, ob, [ex], f'the listener\'s client-certificate verifier accepts {sn}; expected {want}', 'build-server-names', path_summary(r), len(res))
-            pairs = sc[0].args[0]
+            pairs = Agg('()', None, tuple(srest), 'tuple')
             pn = sorted(set(names_of(pairs, r)))
+            if not pn:
+                # an empty SNI table could not complete a single handshake (the suite would fail): the names are carried in a form this obligation cannot trace
+                return ob.done([ex], 'inconclusive', 'the (name, certificate) pairs handed to the server configuration cannot be traced back to the builder\'s names', paths=len(res))
             if pn != want:
                 return viol(prop, ob, [ex], f'the listener answers SNI names {pn}; expected {want}', 'build-sni-names', path_summary(r), len(res))
             certs = []
